@@ -798,3 +798,613 @@ Proof.
   - (* StreamTrack *)
     eapply stream_add_track_wf; eauto.
 Qed.
+
+Lemma set_single_wf a rk b s s' u : set_refs_of a rk [b] s = (s', inl u) -> WF s ->
+  kindof s a = Some (src_kind rk) -> kindof s b = Some (dst_kind rk) -> parent s a = parent s b -> WF s'.
+Proof.
+  intros H W Ka Kb Hp. eapply set_refs_wf; eauto.
+  - intros x [E | []]. subst x. auto.
+  - intros _. constructor; [intros []|constructor].
+  - intros d x Hd [E | []]. subst x. congruence.
+Qed.
+
+Theorem set_ref_wf rk a b s s' u : set_ref P rk a b s = (s', inl u) -> WF s -> WF s'.
+Proof.
+  unfold set_ref. intros H W. apply bind_ok in H. destruct H as (ea & s0 & H0 & H).
+  apply m_get_ok in H0. destruct H0 as [-> Ha].
+  apply bind_ok in H. destruct H as (eb & s0 & H0 & H). apply m_get_ok in H0. destruct H0 as [-> Hb].
+  destruct (negb (kind_eqb (ekind ea) (src_kind rk) && kind_eqb (ekind eb) (dst_kind rk))) eqn:G; [discriminate|].
+  destruct (kinds_of_guard _ _ _ _ _ _ Ha Hb G) as [Ka Kb].
+  assert (Plain : forall rk', rk' = rk ->
+            (ok <~ auto_parent P a b ;;; if negb ok then throw OtherDoc else set_refs_of a rk' [b]) s = (s', inl u) -> WF s').
+  { intros rk' -> H'. apply bind_ok in H'. destruct H' as (ok & s1 & H1 & H').
+    destruct (auto_parent_wf _ _ _ _ _ H1 W) as (W1 & G1 & E1). destruct ok; simpl in H'; [|discriminate].
+    eapply set_single_wf; eauto; rewrite ?(g_kinds _ _ G1); auto. }
+  assert (Uid : forall rk', rk' = rk -> (rk' = UidTrack \/ rk' = UidPack \/ rk' = UidChan) ->
+            (if is_silent_id (eid ea) then throw Silent else
+             ok <~ auto_parent P a b ;;; if negb ok then throw OtherDoc else
+             ea' <~ m_get a ;;;
+             match rk', erefs ea' UidChan, erefs ea' UidTrack with
+             | UidTrack, _ :: _, _ => throw UidExclusive
+             | UidChan, _, _ :: _ => throw UidExclusive
+             | _, _, _ => set_refs_of a rk' [b]
+             end) s = (s', inl u) -> WF s').
+  { intros rk' -> Hk H'. destruct (is_silent_id (eid ea)); [discriminate|].
+    apply bind_ok in H'. destruct H' as (ok & s1 & H1 & H').
+    destruct (auto_parent_wf _ _ _ _ _ H1 W) as (W1 & G1 & E1). destruct ok; simpl in H'; [|discriminate].
+    apply bind_ok in H'. destruct H' as (ea' & s2 & H2 & H'). apply m_get_ok in H2. destruct H2 as [-> _].
+    assert (Fin : set_refs_of a rk [b] s1 = (s', inl u) -> WF s').
+    { intros Hs. eapply set_single_wf; eauto; rewrite ?(g_kinds _ _ G1); auto. }
+    destruct Hk as [-> | [-> | ->]].
+    - destruct (erefs ea' UidChan); [apply Fin; exact H'|discriminate].
+    - apply Fin. destruct (erefs ea' UidChan), (erefs ea' UidTrack); exact H'.
+    - destruct (erefs ea' UidChan), (erefs ea' UidTrack); try discriminate; apply Fin; exact H'. }
+  destruct rk; try discriminate.
+  - apply (Plain StreamChan eq_refl H).
+  - apply (Plain StreamPack eq_refl H).
+  - eapply track_set_stream_wf; eauto.
+  - apply (Uid UidTrack eq_refl (or_introl eq_refl) H).
+  - apply (Uid UidPack eq_refl (or_intror (or_introl eq_refl)) H).
+  - apply (Uid UidChan eq_refl (or_intror (or_intror eq_refl)) H).
+Qed.
+
+(* ---------- Document::remove: the invariant up to references to the element being removed ---------- *)
+Section Except.
+Variable ex : positive -> Prop.
+Definition closedx (s : state) (h : positive) : Prop :=
+  forall d rk h', parent s h = Some d -> In h' (refs s h rk) -> parent s h' = Some d \/ ex h'.
+Definition WFx (s : state) : Prop := MemOk s /\ (forall h, closedx s h) /\ RefsOk s.
+
+Lemma set_refs_shrink_wfx a rk l s s' u : set_refs_of a rk l s = (s', inl u) -> WFx s ->
+  incl l (refs s a rk) -> (NoDup (refs s a rk) -> NoDup l) -> (length l <= length (refs s a rk))%nat -> WFx s'.
+Proof.
+  intros H (M & C & R) Hi Hn Hl. apply set_refs_of_ok in H. destruct H as (_ & P1 & K1 & L1 & R1).
+  split; [|split].
+  - constructor.
+    + intros d k. rewrite L1. apply (mo_nodup _ M).
+    + intros d k h. rewrite L1, K1, P1. apply (mo_listed _ M).
+    + intros h d k. rewrite L1, K1, P1. apply (mo_parent _ M).
+  - intros h d rk' h'. rewrite !P1, R1. destruct (Pos.eqb a h && refkind_eqb rk' rk) eqn:E; [|apply C].
+    apply andb_true_iff in E. destruct E as [E1 E2]. apply Pos.eqb_eq in E1. apply refkind_eqb_eq in E2. subst.
+    intros Hd Hin. eapply C; eauto.
+  - constructor.
+    + intros h rk' h'. rewrite R1, !K1. destruct (Pos.eqb a h && refkind_eqb rk' rk) eqn:E; [|apply (ro_typed _ R)].
+      apply andb_true_iff in E. destruct E as [E1 E2]. apply Pos.eqb_eq in E1. apply refkind_eqb_eq in E2. subst.
+      intros Hin. apply (ro_typed _ R). apply Hi. exact Hin.
+    + intros h rk' Hne. rewrite R1. destruct (Pos.eqb a h && refkind_eqb rk' rk) eqn:E; [|apply (ro_nodup _ R); auto].
+      apply andb_true_iff in E. destruct E as [E1 E2]. apply Pos.eqb_eq in E1. apply refkind_eqb_eq in E2. subst.
+      apply Hn. apply (ro_nodup _ R). exact Hne.
+    + intros h rk' Hm. rewrite R1. destruct (Pos.eqb a h && refkind_eqb rk' rk) eqn:E; [|apply (ro_single _ R); auto].
+      apply andb_true_iff in E. destruct E as [E1 E2]. apply Pos.eqb_eq in E1. apply refkind_eqb_eq in E2. subst.
+      eapply Nat.le_trans; [exact Hl|]. apply (ro_single _ R). exact Hm.
+Qed.
+
+Lemma erase_set_wfx a rk x s s' u : set_refs_of a rk (erase_first x (refs s a rk)) s = (s', inl u) -> WFx s -> WFx s'.
+Proof.
+  intros H W. eapply set_refs_shrink_wfx; eauto;
+    [apply erase_first_incl|apply erase_first_nodup|apply erase_first_length].
+Qed.
+Lemma clear_wfx a rk s s' u : set_refs_of a rk [] s = (s', inl u) -> WFx s -> WFx s'.
+Proof.
+  intros H W. eapply set_refs_shrink_wfx; eauto; [intros x []|intros _; constructor|simpl; apply Nat.le_0_l].
+Qed.
+Lemma track_unset_wfx t s s' u : track_unset_stream t s = (s', inl u) -> WFx s -> WFx s'.
+Proof.
+  unfold track_unset_stream. intros H W. apply bind_ok in H. destruct H as (te & s0 & H0 & H).
+  apply m_get_ok in H0. destruct H0 as [-> He].
+  destruct (single (erefs te TrackStream)) as [st|]; [|inversion H; subst; auto].
+  apply bind_ok in H. destruct H as ([] & s1 & H1 & H). apply clear_wfx in H1; auto.
+  apply bind_ok in H. destruct H as (l & s2 & H2 & H). apply refs_of_ok in H2. destruct H2 as (-> & -> & _).
+  destruct (mem t (refs s1 st StreamTrack)); [|inversion H; subst; auto].
+  eapply erase_set_wfx; eauto.
+Qed.
+Lemma stream_remove_wfx st t s s' u : stream_remove_track st t s = (s', inl u) -> WFx s -> WFx s'.
+Proof.
+  unfold stream_remove_track. intros H W. apply bind_ok in H. destruct H as (l & s0 & H0 & H).
+  apply refs_of_ok in H0. destruct H0 as (-> & -> & _).
+  destruct (mem t (refs s st StreamTrack)); [|inversion H; subst; auto].
+  apply bind_ok in H. destruct H as ([] & s1 & H1 & H).
+  eapply track_unset_wfx; eauto. eapply erase_set_wfx; eauto.
+Qed.
+Lemma remove_ref_wfx rk a b s s' u : remove_ref rk a b s = (s', inl u) -> WFx s -> WFx s'.
+Proof.
+  unfold remove_ref. intros H W.
+  assert (G : forall rk', (l <~ refs_of a rk' ;;; set_refs_of a rk' (erase_first b l)) s = (s', inl u) -> WFx s').
+  { intros rk' H'. apply bind_ok in H'. destruct H' as (l & s0 & H0 & H'). apply refs_of_ok in H0.
+    destruct H0 as (-> & -> & _). eapply erase_set_wfx; eauto. }
+  destruct rk; simpl in H; try discriminate; try (eapply G; eauto; fail). eapply stream_remove_wfx; eauto.
+Qed.
+Lemma unset_ref_wfx rk a s s' u : unset_ref rk a s = (s', inl u) -> WFx s -> WFx s'.
+Proof.
+  unfold unset_ref. intros H W. destruct rk; simpl in H; try discriminate;
+    try (eapply clear_wfx; eauto; fail). eapply track_unset_wfx; eauto.
+Qed.
+End Except.
+
+Lemma WF_WFx s : WF s <-> WFx (fun _ => False) s.
+Proof.
+  split.
+  - intros [[M C] R]. split; auto. split; auto. intros h d rk h' Hd Hin. left. eapply (C h (fun F => F)); eauto.
+  - intros (M & C & R). split; auto. split; auto. intros h _ d rk h' Hd Hin.
+    destruct (C h d rk h' Hd Hin) as [H | []]. exact H.
+Qed.
+
+(* calls that only remove references *)
+Record shrink (s s' : state) : Prop := {
+  sh_parent : forall a, parent s' a = parent s a;
+  sh_kind : forall a, kindof s' a = kindof s a;
+  sh_listed : forall d k, listed s' d k = listed s d k;
+  sh_refs : forall a rk, incl (refs s' a rk) (refs s a rk)
+}.
+Lemma shrink_refl s : shrink s s.
+Proof. constructor; auto. intros a rk. apply incl_refl. Qed.
+Lemma shrink_trans a b c : shrink a b -> shrink b c -> shrink a c.
+Proof.
+  intros H1 H2. constructor.
+  - intros x. rewrite (sh_parent _ _ H2). apply (sh_parent _ _ H1).
+  - intros x. rewrite (sh_kind _ _ H2). apply (sh_kind _ _ H1).
+  - intros d k. rewrite (sh_listed _ _ H2). apply (sh_listed _ _ H1).
+  - intros x rk. eapply incl_tran; [apply (sh_refs _ _ H2)|apply (sh_refs _ _ H1)].
+Qed.
+Lemma set_refs_shrink a rk l s s' u : set_refs_of a rk l s = (s', inl u) -> incl l (refs s a rk) ->
+  shrink s s' /\ refs s' a rk = l.
+Proof.
+  intros H Hi. apply set_refs_of_ok in H. destruct H as (_ & P1 & K1 & L1 & R1). split.
+  - constructor; auto. intros x rk'. rewrite R1. destruct (Pos.eqb a x && refkind_eqb rk' rk) eqn:E; [|apply incl_refl].
+    apply andb_true_iff in E. destruct E as [E1 E2]. apply Pos.eqb_eq in E1. apply refkind_eqb_eq in E2. subst. exact Hi.
+  - rewrite R1, Pos.eqb_refl, refkind_eqb_refl. reflexivity.
+Qed.
+Lemma track_unset_shrink t s s' u : track_unset_stream t s = (s', inl u) ->
+  shrink s s' /\ (get_elem s t <> None -> refs s' t TrackStream = []).
+Proof.
+  unfold track_unset_stream. intros H. apply bind_ok in H. destruct H as (te & s0 & H0 & H).
+  apply m_get_ok in H0. destruct H0 as [-> He].
+  destruct (single (erefs te TrackStream)) as [st|] eqn:Es.
+  - apply bind_ok in H. destruct H as ([] & s1 & H1 & H).
+    destruct (set_refs_shrink _ _ _ _ _ _ H1 (fun x (F : In x []) => match F with end)) as [S1 E1].
+    apply bind_ok in H. destruct H as (l & s2 & H2 & H). apply refs_of_ok in H2. destruct H2 as (-> & -> & _).
+    destruct (mem t (refs s1 st StreamTrack)).
+    + destruct (set_refs_shrink _ _ _ _ _ _ H (erase_first_incl _ _)) as [S2 E2].
+      split; [eapply shrink_trans; eauto|]. intros _.
+      assert (Hi : incl (refs s' t TrackStream) (refs s1 t TrackStream)) by apply (sh_refs _ _ S2).
+      rewrite E1 in Hi. destruct (refs s' t TrackStream) as [|y ys]; auto. exfalso. apply (Hi y). left. reflexivity.
+    + inversion H; subst. split; auto.
+  - inversion H; subst. split; [apply shrink_refl|]. intros _. unfold refs. rewrite He.
+    destruct (erefs te TrackStream); [reflexivity|discriminate].
+Qed.
+
+Lemma notin_erase_nodup (h : positive) l : NoDup l -> ~ In h (erase_first h l).
+Proof. intros Hn Hin. apply (erase_first_in_nodup h h l Hn) in Hin. destruct Hin as [_ Hne]. congruence. Qed.
+
+Lemma remove_ref_post rk x h s s' u : remove_ref rk x h s = (s', inl u) -> NoDup (refs s x rk) ->
+  shrink s s' /\ ~ In h (refs s' x rk).
+Proof.
+  unfold remove_ref. intros H Hn.
+  assert (G : forall rk', rk' = rk -> (l <~ refs_of x rk' ;;; set_refs_of x rk' (erase_first h l)) s = (s', inl u) ->
+              shrink s s' /\ ~ In h (refs s' x rk)).
+  { intros rk' -> H'. apply bind_ok in H'. destruct H' as (l & s0 & H0 & H'). apply refs_of_ok in H0.
+    destruct H0 as (-> & -> & _). destruct (set_refs_shrink _ _ _ _ _ _ H' (erase_first_incl _ _)) as [S E].
+    split; auto. rewrite E. apply notin_erase_nodup. exact Hn. }
+  destruct rk; simpl in H; try discriminate; try (apply (G _ eq_refl H); fail).
+  unfold stream_remove_track in H. apply bind_ok in H. destruct H as (l & s0 & H0 & H).
+  apply refs_of_ok in H0. destruct H0 as (-> & -> & _).
+  destruct (mem h (refs s x StreamTrack)) eqn:Em.
+  - apply bind_ok in H. destruct H as ([] & s1 & H1 & H).
+    destruct (set_refs_shrink _ _ _ _ _ _ H1 (erase_first_incl _ _)) as [S1 E1].
+    destruct (track_unset_shrink _ _ _ _ H) as [S2 _].
+    split; [eapply shrink_trans; eauto|]. intros Hin. apply (sh_refs _ _ S2) in Hin. rewrite E1 in Hin.
+    revert Hin. apply notin_erase_nodup. exact Hn.
+  - inversion H; subst. split; [apply shrink_refl|]. apply mem_false_notin. exact Em.
+Qed.
+
+(* removeReference as many times as the element occurs *)
+Lemma count_erase (h : positive) l : length (filter (Pos.eqb h) (erase_first h l)) = pred (length (filter (Pos.eqb h) l)).
+Proof.
+  induction l as [|y l IH]; simpl; auto. destruct (Pos.eqb h y) eqn:E; simpl; [reflexivity|]. rewrite E. exact IH.
+Qed.
+Lemma filter_nil_notin (h : positive) l : length (filter (Pos.eqb h) l) = O -> ~ In h l.
+Proof.
+  induction l as [|y l IH]; simpl; [tauto|]. destruct (Pos.eqb_spec h y) as [->|N]; simpl; [discriminate|].
+  intros E [F | F]; [congruence|]. apply IH; auto.
+Qed.
+Lemma erase_all_post x h : forall (it : list positive) s s' u,
+  m_iter (fun _ => remove_ref ObjUid x h) it s = (s', inl u) ->
+  length it = length (filter (Pos.eqb h) (refs s x ObjUid)) ->
+  shrink s s' /\ ~ In h (refs s' x ObjUid).
+Proof.
+  induction it as [|i it IH]; intros s s' u H Hl; simpl in H.
+  - inversion H; subst. split; [apply shrink_refl|]. apply filter_nil_notin. simpl in Hl. auto.
+  - apply bind_ok in H. destruct H as ([] & s1 & H1 & H2). simpl in H1.
+    apply bind_ok in H1. destruct H1 as (l & s0 & H0 & H1). apply refs_of_ok in H0. destruct H0 as (-> & -> & _).
+    destruct (set_refs_shrink _ _ _ _ _ _ H1 (erase_first_incl _ _)) as [S1 E1].
+    destruct (IH _ _ _ H2) as [S2 N2].
+    + rewrite E1, count_erase. simpl in Hl. rewrite <- Hl. reflexivity.
+    + split; [eapply shrink_trans; eauto|exact N2].
+Qed.
+
+Lemma unset_ref_post rk x s s' u : unset_ref rk x s = (s', inl u) -> get_elem s x <> None ->
+  shrink s s' /\ refs s' x rk = [].
+Proof.
+  unfold unset_ref. intros H Hx.
+  assert (G : forall rk', rk' = rk -> set_refs_of x rk' [] s = (s', inl u) -> shrink s s' /\ refs s' x rk = []).
+  { intros rk' -> H'. apply (set_refs_shrink _ _ _ _ _ _ H'). intros y []. }
+  destruct rk; simpl in H; try discriminate; try (apply (G _ eq_refl H); fail).
+  destruct (track_unset_shrink _ _ _ _ H) as [S E]. split; auto.
+Qed.
+
+Definition uid_rule (Q : plans) : bool :=
+  forallb (fun k => forallb (fun ra => match snd ra with
+                                       | EraseAll => refkind_eqb (fst ra) ObjUid
+                                       | _ => negb (refkind_eqb (fst ra) ObjUid)
+                                       end) (remove_plan Q k)) all_kinds.
+
+Section Remove.
+Hypothesis Hrem : remove_plan_complete P = true.
+Hypothesis Htyped : plans_typed P = true.
+Hypothesis Huid : uid_rule P = true.
+Variable h : positive.
+Let ex := fun y : positive => y = h.
+
+Lemma plan_entry k ra : In ra (remove_plan P k) ->
+  dst_kind (fst ra) = k /\
+  match snd ra with
+  | EraseFirst => multi (fst ra) = true /\ fst ra <> ObjUid
+  | EraseAll => fst ra = ObjUid
+  | UnsetIfEq => multi (fst ra) = false
+  end.
+Proof.
+  intros Hin. unfold plans_typed in Htyped. rewrite forallb_forall in Htyped.
+  specialize (Htyped k (all_kinds_complete k)). apply andb_true_iff in Htyped. destruct Htyped as [_ H2].
+  rewrite forallb_forall in H2. specialize (H2 ra Hin). apply andb_true_iff in H2. destruct H2 as [H2 H3].
+  apply kind_eqb_eq in H2. split; auto.
+  unfold uid_rule in Huid. rewrite forallb_forall in Huid. specialize (Huid k (all_kinds_complete k)).
+  rewrite forallb_forall in Huid. specialize (Huid ra Hin).
+  destruct (snd ra).
+  - split; auto. apply negb_true_iff in Huid. intros E. rewrite E in Huid. discriminate.
+  - apply refkind_eqb_eq in Huid. exact Huid.
+  - apply negb_true_iff in H3. exact H3.
+Qed.
+
+Lemma iter_remove_wfx rk x : forall (it : list positive) s s' u,
+  m_iter (fun _ => remove_ref rk x h) it s = (s', inl u) -> WFx ex s -> WFx ex s'.
+Proof.
+  induction it as [|i it IH]; intros s s' u H W; simpl in H; [inversion H; subst; auto|].
+  apply bind_ok in H. destruct H as ([] & s1 & H1 & H2). eapply IH; eauto. eapply remove_ref_wfx; eauto.
+Qed.
+
+Lemma action_post k ra x s s' u : In ra (remove_plan P k) ->
+  apply_remove_action h ra x s = (s', inl u) -> WFx ex s -> get_elem s x <> None ->
+  WFx ex s' /\ shrink s s' /\ ~ In h (refs s' x (fst ra)).
+Proof.
+  intros Hin H W Hx. destruct (plan_entry _ _ Hin) as [_ Hact]. destruct ra as [rk act]. simpl in *.
+  pose proof W as (M & C & R). destruct act.
+  - destruct Hact as [Hm Hne]. split; [eapply remove_ref_wfx; eauto|].
+    eapply remove_ref_post; eauto. apply (ro_nodup _ R). exact Hne.
+  - subst rk. apply bind_ok in H. destruct H as (l & s0 & H0 & H). apply refs_of_ok in H0. destruct H0 as (-> & -> & _).
+    split.
+    + eapply iter_remove_wfx; eauto.
+    + eapply erase_all_post; eauto.
+  - apply bind_ok in H. destruct H as (l & s0 & H0 & H). apply refs_of_ok in H0. destruct H0 as (-> & -> & _).
+    destruct (opt_eqb (single (refs s x rk)) (Some h)) eqn:E.
+    + split; [eapply unset_ref_wfx; eauto|]. destruct (unset_ref_post _ _ _ _ _ H Hx) as [S E']. split; auto.
+      rewrite E'. intros [].
+    + inversion H; subst. split; auto. split; [apply shrink_refl|].
+      pose proof (ro_single _ R x rk Hact) as Hl. destruct (refs s' x rk) as [|y [|z zs]]; simpl in *.
+      * intros [].
+      * intros [F | []]. subst y. rewrite Pos.eqb_refl in E. discriminate.
+      * exfalso. apply (Nat.nle_succ_0 _ (le_S_n _ _ Hl)).
+Qed.
+
+Lemma listers_post k ra : In ra (remove_plan P k) -> forall ls s s' u,
+  m_iter (apply_remove_action h ra) ls s = (s', inl u) -> WFx ex s -> (forall x, In x ls -> get_elem s x <> None) ->
+  WFx ex s' /\ shrink s s' /\ forall x, In x ls -> ~ In h (refs s' x (fst ra)).
+Proof.
+  intros Hin. induction ls as [|x ls IH]; intros s s' u H W Hex; simpl in H.
+  - inversion H; subst. split; auto. split; [apply shrink_refl|intros x []].
+  - apply bind_ok in H. destruct H as ([] & s1 & H1 & H2).
+    destruct (action_post _ _ _ _ _ _ Hin H1 W (Hex x (or_introl eq_refl))) as (W1 & S1 & N1).
+    destruct (IH _ _ _ H2 W1) as (W2 & S2 & N2).
+    + intros y Hy. rewrite <- kindof_none, (sh_kind _ _ S1), kindof_none. apply Hex. right. exact Hy.
+    + split; auto. split; [eapply shrink_trans; eauto|].
+      intros y [<- | Hy]; [|apply N2; exact Hy]. intros F. apply N1. apply (sh_refs _ _ S2). exact F.
+Qed.
+
+Lemma plan_post k d : forall ras, incl ras (remove_plan P k) -> forall s s' u,
+  m_iter (fun ra => ls <~ members_of d (src_kind (fst ra)) ;;; m_iter (apply_remove_action h ra) ls) ras s = (s', inl u) ->
+  WFx ex s ->
+  WFx ex s' /\ shrink s s' /\ forall ra x, In ra ras -> In x (listed s d (src_kind (fst ra))) -> ~ In h (refs s' x (fst ra)).
+Proof.
+  induction ras as [|ra ras IH]; intros Hinc s s' u H W; simpl in H.
+  - inversion H; subst. split; auto. split; [apply shrink_refl|intros ra x []].
+  - apply bind_ok in H. destruct H as ([] & s1 & H1 & H2).
+    apply bind_ok in H1. destruct H1 as (ls & s0 & H0 & H1). apply members_of_ok in H0. destruct H0 as [-> ->].
+    assert (Hra : In ra (remove_plan P k)) by (apply Hinc; left; reflexivity).
+    destruct (listers_post _ _ Hra _ _ _ _ H1 W) as (W1 & S1 & N1).
+    { intros x Hx. destruct W as (M & _ & _). apply (mo_listed _ M) in Hx. destruct Hx as [Hk _].
+      rewrite <- kindof_none. congruence. }
+    destruct (IH (fun y Hy => Hinc y (or_intror Hy)) _ _ _ H2 W1) as (W2 & S2 & N2).
+    split; auto. split; [eapply shrink_trans; eauto|].
+    intros ra' x [<- | Hr] Hx.
+    + intros F. apply (N1 x Hx). apply (sh_refs _ _ S2). exact F.
+    + apply N2; auto. rewrite (sh_listed _ _ S1). exact Hx.
+Qed.
+
+Lemma remove_complete rk : exists act, In (rk, act) (remove_plan P (dst_kind rk)).
+Proof.
+  unfold remove_plan_complete in Hrem. rewrite forallb_forall in Hrem.
+  assert (Hin : In rk all_refkinds) by (destruct rk; simpl; tauto).
+  specialize (Hrem rk Hin). apply existsb_exists in Hrem. destruct Hrem as ([rk' act] & Hx & E).
+  apply refkind_eqb_eq in E. simpl in E. subst rk'. exists act. exact Hx.
+Qed.
+
+Theorem doc_remove_wf d s s' r : doc_remove P d h s = (s', inl r) -> WF s -> WF s'.
+Proof.
+  unfold doc_remove. intros H W. apply bind_ok in H. destruct H as (e & s0 & H0 & H).
+  apply m_get_ok in H0. destruct H0 as [-> He].
+  apply bind_ok in H. destruct H as (x & s0 & H0 & H). apply m_getdoc_ok in H0. destruct H0 as [-> Hx].
+  destruct (mem h (members x (ekind e))) eqn:Em; simpl in H; [|inversion H; subst; auto].
+  apply bind_ok in H. destruct H as ([] & s1 & H1 & H). inversion H1; subst s1. clear H1.
+  apply bind_ok in H. destruct H as ([] & s2 & H2 & H). apply m_modify_ok in H2. destruct H2 as (e1 & He1 & ->).
+  rewrite get_putdoc in He1. rewrite He in He1. inversion He1; subst e1. clear He1.
+  apply bind_ok in H. destruct H as ([] & s3 & H3 & H4). inversion H4; subst. clear H4.
+  set (k := ekind e) in *.
+  set (s2 := put_elem (put_doc s d (set_members x k (erase_first h (members x k)))) h (set_parent e None)) in *.
+  pose proof W as [[M C] R].
+  assert (Hl : listed s d k = members x k) by (unfold listed; rewrite Hx; reflexivity).
+  assert (Hin : In h (listed s d k)) by (rewrite Hl; apply mem_In; exact Em).
+  destruct (mo_listed _ M _ _ _ Hin) as [Hkh Hph].
+  (* views of the detached state *)
+  assert (P2 : forall a, parent s2 a = if Pos.eqb h a then None else parent s a).
+  { intros a. unfold s2. rewrite parent_put. destruct (Pos.eqb h a); reflexivity. }
+  assert (K2 : forall a, kindof s2 a = kindof s a).
+  { intros a. unfold s2. rewrite kindof_put. destruct (Pos.eqb_spec h a) as [->|N]; [|reflexivity].
+    rewrite (kindof_of_get _ _ _ He). reflexivity. }
+  assert (R2 : forall a rk, refs s2 a rk = refs s a rk).
+  { intros a rk. unfold s2. rewrite refs_put_elem'. destruct (Pos.eqb_spec h a) as [->|N]; [|reflexivity].
+    rewrite (refs_of_get _ _ _ _ He). reflexivity. }
+  assert (L2 : forall d' k', listed s2 d' k' = if Pos.eqb d d' && kind_eqb k' k then erase_first h (listed s d k) else listed s d' k').
+  { intros d' k'. unfold s2. rewrite listed_put_elem, listed_put_doc. destruct (Pos.eqb_spec d d') as [->|N]; simpl; auto.
+    unfold set_members; simpl. destruct (kind_eqb k' k) eqn:E; [rewrite Hl; reflexivity|].
+    unfold listed. rewrite Hx. reflexivity. }
+  assert (W2 : WFx ex s2).
+  { split; [|split].
+    - constructor.
+      + intros d' k'. rewrite L2. destruct (Pos.eqb d d' && kind_eqb k' k); [apply erase_first_nodup|]; apply (mo_nodup _ M).
+      + intros d' k' a. rewrite L2, K2, P2. destruct (Pos.eqb d d' && kind_eqb k' k) eqn:E.
+        * apply andb_true_iff in E. destruct E as [E1 E2]. apply Pos.eqb_eq in E1. apply kind_eqb_eq in E2. subst d' k'.
+          intros Ha. apply (erase_first_in_nodup h a _ (mo_nodup _ M d k)) in Ha. destruct Ha as [Ha Hne].
+          destruct (Pos.eqb_spec h a) as [->|N]; [congruence|]. apply (mo_listed _ M); auto.
+        * intros Ha. destruct (Pos.eqb_spec h a) as [->|N]; [|apply (mo_listed _ M); auto].
+          exfalso. destruct (mo_listed _ M _ _ _ Ha) as [Hk' Hp']. rewrite Hkh in Hk'. rewrite Hph in Hp'.
+          inversion Hk'; inversion Hp'; subst. rewrite Pos.eqb_refl, kind_eqb_refl in E. discriminate.
+      + intros a d' k'. rewrite L2, K2, P2. destruct (Pos.eqb_spec h a) as [->|N]; [discriminate|].
+        intros Ha Hka. pose proof (mo_parent _ M _ _ _ Ha Hka) as Hin'.
+        destruct (Pos.eqb d d' && kind_eqb k' k) eqn:E; auto.
+        apply andb_true_iff in E. destruct E as [E1 E2]. apply Pos.eqb_eq in E1. apply kind_eqb_eq in E2. subst d' k'.
+        apply (erase_first_in_nodup h a _ (mo_nodup _ M d k)). split; auto.
+    - intros a d' rk y. rewrite !P2, R2. destruct (Pos.eqb_spec h a) as [->|N]; [discriminate|].
+      intros Ha Hy. destruct (Pos.eqb_spec h y) as [->|N2]; [right; reflexivity|]. left.
+      eapply (C a (fun F => F)); eauto.
+    - constructor.
+      + intros a rk y. rewrite R2, !K2. apply (ro_typed _ R).
+      + intros a rk. rewrite R2. apply (ro_nodup _ R).
+      + intros a rk. rewrite R2. apply (ro_single _ R). }
+  destruct (plan_post k d (remove_plan P k) (incl_refl _) _ _ _ H3 W2) as (W3 & S3 & N3).
+  destruct W3 as (M3 & C3 & R3).
+  apply WF_WFx. split; auto. split; auto.
+  intros a d' rk y Ha Hy. destruct (C3 a d' rk y Ha Hy) as [Hp | Hex]; [left; exact Hp|].
+  exfalso. unfold ex in Hex. subst y.
+  (* a parented element still references h: it was a lister of the plan entry for rk *)
+  pose proof Hy as Hy2. apply (sh_refs _ _ S3) in Hy2. rewrite R2 in Hy2.
+  rewrite (sh_parent _ _ S3), P2 in Ha. destruct (Pos.eqb_spec h a) as [->|N]; [discriminate|].
+  pose proof (C a (fun F => F) d' rk h Ha Hy2) as Hph'. rewrite Hph in Hph'. inversion Hph'; subst d'.
+  destruct (ro_typed _ R _ _ _ Hy2) as [Ksrc Kdst]. rewrite Hkh in Kdst. inversion Kdst as [Hk].
+  destruct (remove_complete rk) as [act Hact]. rewrite <- Hk in Hact.
+  apply (N3 (rk, act) a Hact); simpl; auto.
+  rewrite L2. pose proof (mo_parent _ M _ _ _ Ha Ksrc) as Hla.
+  destruct (Pos.eqb d d && kind_eqb (src_kind rk) k) eqn:E; auto.
+  apply andb_true_iff in E. destruct E as [_ E2]. apply kind_eqb_eq in E2. rewrite E2 in Hla.
+  apply (erase_first_in_nodup h a _ (mo_nodup _ M d k)). split; auto.
+Qed.
+End Remove.
+
+(* ---------- the remaining calls ---------- *)
+Lemma modify_same_views h f s s' u : m_modify h f s = (s', inl u) ->
+  (forall e, ekind (f e) = ekind e /\ eparent (f e) = eparent e /\ forall rk, erefs (f e) rk = erefs e rk) ->
+  same_views s s'.
+Proof.
+  intros H Hf. apply m_modify_ok in H. destruct H as (e & He & ->). destruct (Hf e) as (Fk & Fp & Fr). constructor.
+  - intros a. rewrite parent_put. destruct (Pos.eqb_spec h a) as [->|N]; auto. rewrite (parent_of_get _ _ _ He). exact Fp.
+  - intros a. rewrite kindof_put. destruct (Pos.eqb_spec h a) as [->|N]; auto. rewrite (kindof_of_get _ _ _ He). f_equal. exact Fk.
+  - intros a rk. rewrite refs_put_elem'. destruct (Pos.eqb_spec h a) as [->|N]; auto. rewrite (refs_of_get _ _ _ _ He). apply Fr.
+  - intros d k. reflexivity.
+Qed.
+
+Lemma lookup_ok d k i s s' r : lookup d k i s = (s', inl r) -> s' = s.
+Proof. unfold lookup. intros H. destruct (get_doc s d); inversion H; auto. Qed.
+
+Theorem set_id_wf h i s s' u : set_id h i s = (s', inl u) -> WF s -> WF s'.
+Proof.
+  unfold set_id. intros H W. apply bind_ok in H. destruct H as (e & s0 & H0 & H).
+  apply m_get_ok in H0. destruct H0 as [-> He].
+  assert (Plain : m_modify h (fun e0 => set_eid e0 i) s = (s', inl u) -> WF s').
+  { intros Hm. eapply WF_same_views; [|exact W]. eapply modify_same_views; [exact Hm|intros e0; repeat split]. }
+  assert (Chan : m_modify h (fun e0 => renumber_blocks (set_eid e0 i) (ival i)) s = (s', inl u) -> WF s').
+  { intros Hm. eapply WF_same_views; [|exact W]. eapply modify_same_views; [exact Hm|intros e0; repeat split]. }
+  destruct (is_undefined (ekind e) i); [apply Plain; exact H|].
+  apply bind_ok in H. destruct H as (found & s1 & H1 & H).
+  assert (s1 = s).
+  { destruct (eparent e); [eapply lookup_ok; eauto|inversion H1; auto]. }
+  subst s1. destruct found; [discriminate|].
+  destruct (ekind e); try (apply Plain; exact H).
+  - destruct (ity i =? etd e); [apply Plain; exact H|discriminate].
+  - destruct (ity i =? etd e); [apply Chan; exact H|discriminate].
+  - destruct (is_silent_id i && _); [discriminate|apply Plain; exact H].
+Qed.
+
+Lemma new_elem_wf h k i td hoa s : get_elem s h = None -> WF s -> WF (put_elem s h (new_elem k i td hoa)).
+Proof.
+  intros Hn [[M C] R].
+  assert (Hk : kindof s h = None) by (apply kindof_none; exact Hn).
+  assert (Hnl : forall d k', ~ In h (listed s d k')).
+  { intros d k' Hin. apply (mo_listed _ M) in Hin. destruct Hin as [E _]. congruence. }
+  assert (Hnr : forall a rk, ~ In h (refs s a rk)).
+  { intros a rk Hin. apply (ro_typed _ R) in Hin. destruct Hin as [_ E]. congruence. }
+  set (s' := put_elem s h (new_elem k i td hoa)).
+  assert (P1 : forall a, parent s' a = if Pos.eqb h a then None else parent s a).
+  { intros a. unfold s'. rewrite parent_put. reflexivity. }
+  assert (K1 : forall a, kindof s' a = if Pos.eqb h a then Some k else kindof s a).
+  { intros a. unfold s'. rewrite kindof_put. reflexivity. }
+  assert (R1 : forall a rk, refs s' a rk = if Pos.eqb h a then [] else refs s a rk).
+  { intros a rk. unfold s'. rewrite refs_put_elem'. reflexivity. }
+  split; [split|].
+  - constructor.
+    + intros d k'. apply (mo_nodup _ M).
+    + intros d k' a Hin. change (listed s' d k') with (listed s d k') in Hin. rewrite K1, P1.
+      destruct (Pos.eqb_spec h a) as [->|N]; [exfalso; eapply Hnl; eauto|]. apply (mo_listed _ M); auto.
+    + intros a d k'. rewrite K1, P1. destruct (Pos.eqb_spec h a) as [->|N]; [discriminate|]. apply (mo_parent _ M).
+  - intros a _ d rk y. rewrite !P1, R1. destruct (Pos.eqb_spec h a) as [->|N]; [discriminate|].
+    intros Ha Hy. destruct (Pos.eqb_spec h y) as [->|N2]; [exfalso; eapply Hnr; eauto|]. eapply (C a (fun F => F)); eauto.
+  - constructor.
+    + intros a rk y. rewrite R1, !K1. destruct (Pos.eqb_spec h a) as [->|N]; [intros []|].
+      intros Hy. destruct (Pos.eqb_spec h y) as [->|N2]; [exfalso; eapply Hnr; eauto|]. apply (ro_typed _ R); auto.
+    + intros a rk Hne. rewrite R1. destruct (Pos.eqb h a); [constructor|apply (ro_nodup _ R); auto].
+    + intros a rk Hm. rewrite R1. destruct (Pos.eqb h a); [simpl; apply Nat.le_0_l|apply (ro_single _ R); auto].
+Qed.
+
+Lemma new_doc_wf d s : get_doc s d = None -> WF s -> WF (put_doc s d empty_doc).
+Proof.
+  intros Hn [[M C] R].
+  assert (L1 : forall d' k, listed (put_doc s d empty_doc) d' k = listed s d' k).
+  { intros d' k. rewrite listed_put_doc. destruct (Pos.eqb_spec d d') as [->|N]; auto. unfold listed. rewrite Hn. reflexivity. }
+  split; [split|].
+  - constructor.
+    + intros d' k. rewrite L1. apply (mo_nodup _ M).
+    + intros d' k a. rewrite L1. apply (mo_listed _ M).
+    + intros a d' k. rewrite L1. apply (mo_parent _ M).
+  - intros a _. apply C. intros [].
+  - constructor; [apply (ro_typed _ R)|apply (ro_nodup _ R)|apply (ro_single _ R)].
+Qed.
+
+Theorem get_silent_wf hnew d s s' r : get_silent hnew d s = (s', inl r) -> WF s -> WF s'.
+Proof.
+  unfold get_silent. intros H W. apply bind_ok in H. destruct H as (found & s1 & H1 & H).
+  assert (s1 = s) by (destruct d; [eapply lookup_ok; eauto|inversion H1; auto]). subst s1.
+  destruct found; [inversion H; subst; auto|].
+  destruct (get_elem s hnew) eqn:E; inversion H; subst. apply new_elem_wf; auto.
+Qed.
+
+(* ---------- every successful API call keeps the invariant ---------- *)
+Hypothesis Hrem : remove_plan_complete P = true.
+Hypothesis Htyped : plans_typed P = true.
+Hypothesis Huid : uid_rule P = true.
+
+Lemma lift_ok {A} (f : A -> value) (m : M A) s s' v : lift f m s = (s', inl v) -> exists a, m s = (s', inl a).
+Proof.
+  unfold lift. intros H. apply bind_ok in H. destruct H as (a & s1 & H1 & H2). inversion H2; subst. eauto.
+Qed.
+
+Theorem wf_step o s s' v : WF s -> exec P o s = (s', inl v) -> WF s'.
+Proof.
+  intros W H. destruct o; simpl in H.
+  - destruct (get_doc s d) eqn:E; inversion H; subst. apply new_doc_wf; auto.
+  - destruct (get_elem s h) eqn:E; inversion H; subst. apply new_elem_wf; auto.
+  - apply bind_ok in H. destruct H as (x & s1 & H1 & H). apply m_getdoc_ok in H1. destruct H1 as [-> _].
+    apply lift_ok in H. destruct H as [b0 H]. destruct W as [I R].
+    destruct (doc_add_top_wf P Hplan _ _ _ _ _ H I R) as (I' & R' & _). split; auto.
+  - apply lift_ok in H. destruct H as [b0 H]. eapply doc_remove_wf; eauto.
+  - apply lift_ok in H. destruct H as [b0 H]. eapply add_ref_wf; eauto.
+  - apply bind_ok in H. destruct H as (ea & s1 & H1 & H). apply m_get_ok in H1. destruct H1 as [-> _].
+    apply bind_ok in H. destruct H as (eb & s1 & H1 & H). apply m_get_ok in H1. destruct H1 as [-> _].
+    destruct (negb _); [discriminate|]. apply lift_ok in H. destruct H as [b' H]. eapply remove_ref_wf; eauto.
+  - apply lift_ok in H. destruct H as [b' H]. eapply set_ref_wf; eauto.
+  - apply bind_ok in H. destruct H as (ea & s1 & H1 & H). apply m_get_ok in H1. destruct H1 as [-> _].
+    destruct (negb _); [discriminate|]. apply lift_ok in H. destruct H as [b' H]. eapply unset_ref_wf; eauto.
+  - apply bind_ok in H. destruct H as (ea & s1 & H1 & H). apply m_get_ok in H1. destruct H1 as [-> _].
+    destruct (negb _); [discriminate|]. apply lift_ok in H. destruct H as [b' H]. eapply clear_refs_wf; eauto.
+  - apply lift_ok in H. destruct H as [b' H]. eapply set_id_wf; eauto.
+  - apply lift_ok in H. destruct H as [b' H]. eapply get_silent_wf; eauto.
+  - apply lift_ok in H. destruct H as [b' H]. apply lookup_ok in H. subst. exact W.
+Qed.
+End Ops.
+
+Lemma empty_wf : WF empty_state.
+Proof.
+  assert (L : forall d k, listed empty_state d k = []).
+  { intros d k. unfold listed, get_doc, empty_state. simpl. rewrite PM.gempty. reflexivity. }
+  assert (Pn : forall a, parent empty_state a = None).
+  { intros a. unfold parent, get_elem, empty_state. simpl. rewrite PM.gempty. reflexivity. }
+  assert (Rn : forall a rk, refs empty_state a rk = []).
+  { intros a rk. unfold refs, get_elem, empty_state. simpl. rewrite PM.gempty. reflexivity. }
+  split; [split|].
+  - constructor.
+    + intros d k. rewrite L. constructor.
+    + intros d k h. rewrite L. intros [].
+    + intros h d k. rewrite Pn. discriminate.
+  - intros h _ d rk y. rewrite Pn. discriminate.
+  - constructor.
+    + intros h rk y. rewrite Rn. intros [].
+    + intros h rk _. rewrite Rn. constructor.
+    + intros h rk _. rewrite Rn. simpl. apply Nat.le_0_l.
+Qed.
+
+(* a history of successful calls: it ends at the first exception *)
+Fixpoint run_succ (P : plans) (ops : list op) (s : state) : option state :=
+  match ops with
+  | [] => Some s
+  | o :: r => match exec P o s with (s1, inl _) => run_succ P r s1 | (_, inr _) => None end
+  end.
+
+Theorem wf_invariant P : add_plan_complete P = true -> remove_plan_complete P = true -> plans_typed P = true ->
+  uid_rule P = true -> forall ops s s', WF s -> run_succ P ops s = Some s' -> WF s'.
+Proof.
+  intros H1 H2 H3 H4. induction ops as [|o r IH]; intros s s' W H; simpl in H; [inversion H; subst; auto|].
+  destruct (exec P o s) as [s1 [v|e]] eqn:E; [|discriminate]. eapply IH; [|exact H]. eapply wf_step; eauto.
+Qed.
+
+(* ---------- what the invariant says, and the rejections ---------- *)
+Theorem WF_meaning s : WF s ->
+  (forall d k, NoDup (listed s d k)) /\
+  (forall d k h, In h (listed s d k) <-> kindof s h = Some k /\ parent s h = Some d) /\
+  (forall h d rk h', parent s h = Some d -> In h' (refs s h rk) -> parent s h' = Some d).
+Proof.
+  intros [[M C] R]. split; [apply (mo_nodup _ M)|]. split.
+  - intros d k h. split; [apply (mo_listed _ M)|]. intros [Hk Hp]. eapply (mo_parent _ M); eauto.
+  - intros h d rk h' Hd Hin. eapply (C h (fun F => F)); eauto.
+Qed.
+
+Lemma doc_add_second_document P d h s e d' : get_elem s h = Some e -> eparent e = Some d' -> d' <> d ->
+  doc_add_top P d h s = (s, inr OtherDoc).
+Proof.
+  intros He Hp Hne. unfold doc_add_top, fuel_of. cbn [doc_add]. unfold bind, m_get. rewrite He, Hp.
+  destruct (Pos.eqb_spec d' d); [contradiction|reflexivity].
+Qed.
+
+Lemma auto_parent_two_documents P a b s ea eb d1 d2 : get_elem s a = Some ea -> get_elem s b = Some eb ->
+  eparent ea = Some d1 -> eparent eb = Some d2 -> d1 <> d2 -> auto_parent P a b s = (s, inl false).
+Proof.
+  intros Ha Hb H1 H2 Hne. unfold auto_parent, parent_of, bind, m_get. rewrite Ha. simpl. rewrite Hb. simpl.
+  rewrite H1, H2. simpl. destruct (Pos.eqb_spec d1 d2); [contradiction|reflexivity].
+Qed.
+
+(* linking two elements of different documents: the plain reference kinds *)
+Lemma link_two_documents_rejected P rk a b s ea eb d1 d2 :
+  In rk [ProgCont; ContObj; ObjPack; PackChan] ->
+  get_elem s a = Some ea -> get_elem s b = Some eb -> ekind ea = src_kind rk -> ekind eb = dst_kind rk ->
+  eparent ea = Some d1 -> eparent eb = Some d2 -> d1 <> d2 -> add_ref P rk a b s = (s, inr OtherDoc).
+Proof.
+  intros Hrk Ha Hb Ka Kb H1 H2 Hne. unfold add_ref. unfold bind at 1. unfold m_get at 1. rewrite Ha.
+  unfold bind at 1. unfold m_get at 1. rewrite Hb. rewrite Ka, Kb, !kind_eqb_refl. simpl.
+  pose proof (auto_parent_two_documents P a b s ea eb d1 d2 Ha Hb H1 H2 Hne) as Hap.
+  destruct Hrk as [<- | [<- | [<- | [<- | []]]]]; unfold bind; rewrite Hap; reflexivity.
+Qed.
+Lemma set_two_documents_rejected P rk a b s ea eb d1 d2 :
+  In rk [StreamChan; StreamPack] ->
+  get_elem s a = Some ea -> get_elem s b = Some eb -> ekind ea = src_kind rk -> ekind eb = dst_kind rk ->
+  eparent ea = Some d1 -> eparent eb = Some d2 -> d1 <> d2 -> set_ref P rk a b s = (s, inr OtherDoc).
+Proof.
+  intros Hrk Ha Hb Ka Kb H1 H2 Hne. unfold set_ref. unfold bind at 1. unfold m_get at 1. rewrite Ha.
+  unfold bind at 1. unfold m_get at 1. rewrite Hb. rewrite Ka, Kb, !kind_eqb_refl. simpl.
+  pose proof (auto_parent_two_documents P a b s ea eb d1 d2 Ha Hb H1 H2 Hne) as Hap.
+  destruct Hrk as [<- | [<- | []]]; unfold bind; rewrite Hap; reflexivity.
+Qed.
